@@ -18,6 +18,7 @@ struct St {
     log: Vec<(String, usize, usize, usize)>,
     free_run: bool,
     job_release: HashSet<usize>,
+    job_crash: HashSet<usize>,
     gated: bool,
 }
 
@@ -98,6 +99,12 @@ impl Ctl {
         m.lock().unwrap().job_release.insert(j);
         cv.notify_all();
     }
+    fn crash_job(&self, j: usize) {
+        self.st.0.lock().unwrap().job_crash.insert(j);
+    }
+    fn job_crashes(&self, j: usize) -> bool {
+        self.st.0.lock().unwrap().job_crash.contains(&j)
+    }
     fn wait_job_released(&self, j: usize) {
         let (m, cv) = &*self.st;
         let mut st = m.lock().unwrap();
@@ -155,6 +162,10 @@ fn replay_one(case: &Value) -> Result<usize, String> {
                     ctl2.wait_job_released(j);
                     running.lock().unwrap().remove(&j);
                     ctl2.log_ev("job_end", verif::wid(), j, 0);
+                    if ctl2.job_crashes(j) {
+                        // the model's EnvCrash: this connection handler ends by panicking
+                        panic!("verif: handler of job {} panics (model action crash)", j);
+                    }
                 });
             }
             drop(pool);
@@ -235,11 +246,15 @@ fn replay_one(case: &Value) -> Result<usize, String> {
                     if r > max { return Err(ctx(format!("{} jobs in service, max is {}", r, max))); }
                 }
                 "release" => {}
+                "crash" => ctl.crash_job(w),
                 "w_finish" => {
                     let j = *wjob.get(&w).ok_or_else(|| ctx("no job known for this worker".into()))?;
                     ctl.release_job(j);
                     if ctl.wait_log(from, "job_end", Some(w)).is_none() { return Err(ctx("job did not end".into())); }
-                    if !ctl.wait_parked("gate_w_uncount", w) { return Err(ctx("worker did not reach the un-count step".into())); }
+                    if !ctl.wait_parked("gate_w_uncount", w) {
+                        return Err(ctx(if ctl.job_crashes(j) { "the handler panicked and its worker never came back to un-count the job: the thread is gone while the pool still counts it".into() }
+                                       else { "worker did not reach the un-count step".into() }));
+                    }
                 }
                 "w_uncount" => {
                     ctl.release("gate_w_uncount", w);
